@@ -12,6 +12,17 @@ fn once(case: &Value, run: &Run) -> Acc {
         "ladder" => crate::checks::robust::replay_ladder(case, run),
         "built-index" | "built-slice" => crate::checks::robust::replay_built(case, run),
         "ref" | "ref-history" => crate::checks::refs::replay(case, run),
+        "spelling" => crate::checks::spellings::replay(case, run),
+        "views" => crate::checks::views::replay(case, run),
+        "schedule" => crate::checks::purity::replay_schedule(case, run),
+        "history" => crate::checks::purity::replay_history(case, run),
+        "static" => crate::checks::purity::replay_static(case, run),
+        "entry-points" => {
+            let mut acc = Acc::new();
+            let am = crate::imp::AddrMap::new(&case["doc"]);
+            crate::checks::purity::entry_points_pub(&mut acc, case["query"].as_str().unwrap_or("$"), &case["doc"], &am);
+            acc
+        }
         "ext" => crate::checks::ext::replay(case, run),
         "query-plain" => crate::checks::common::replay_plain(case, run),
         k => {
